@@ -580,6 +580,90 @@ def lsp_chain_bounds(p):
     return res
 
 
+def gain_normalisation(ctx, p, RULE="C13-R3"):
+    """gnorm / ignorm, the two gain normalisations the LSP path goes through (ignorm before the
+    gamma conversion, gnorm before the MGLSA filter): with g = gamma and K = 1 + g*c0,
+    gnorm: c0' = K^(1/g), ci' = ci / K;  ignorm: with k = c0^g, c0' = (k - 1)/g, ci' = ci * k;
+    for g = 0: exp / ln of c0 and the other coefficients copied.  (Sweep survivors: `1.0 * gamma`,
+    exp / ln dropped, `copy_from_slice(&self[0..])`.)"""
+    from ..loops import loop_var_parts
+    G = ("G",)
+    S0 = ("S0",)
+
+    def at(e):
+        if e[0] == "call" and e[1].endswith("Generalized::gamma") and len(e[2]) == 1 and show(e[2][0]) == "self":
+            return G
+        if e[0] == "idx" and show(e[1]) == "self" and e[2][0] == "c" and e[2][1] == 0:
+            return S0
+        if e[0] == "idx" and show(e[1]) == "self" and loop_var_parts(e[2]) is not None:
+            return ("SI",)
+        return None
+    one = Poly.const(1)
+    PG, PS0, PSI = Poly.atom(G), Poly.atom(S0), Poly.atom(("SI",))
+    for name in ("gnorm", "ignorm"):
+        b = cm.body_or_fail(ctx, p, RULE, "vocoder::generalized::Generalized::" + name)
+        if b is None:
+            continue
+        eb = ExprBuilder(b)
+        got = {}
+        for bb, i, st, tgt, root, chain, val in stores(b, eb):
+            if not (tgt[0] == "idx" and show(tgt[1]) == "self"):
+                continue
+            br = None
+            for g in paths.guards(b, bb, eb):
+                if g[0] in ("true", "false"):
+                    pos, c = paths.bool_atoms(g)
+                    if c[0] == "bin" and c[1] in ("Ne", "Eq") and to_poly(c[2], at) == PG and c[3][0] == "c" and float(c[3][1]) == 0.0:
+                        br = "nz" if (c[1] == "Ne") == pos else "z"
+            if br is None:
+                continue
+            if tgt[2][0] == "c" and tgt[2][1] == 0:
+                slot = "0"
+            else:
+                lv = loop_var_parts(tgt[2])
+                slot = "i" if lv is not None and lv[0] == "up" and to_poly(lv[1]) == one and lv[2][0] == "len" and show(lv[2][1]) == "self" else "i?"
+            ok = False
+            if name == "gnorm" and br == "nz" and slot == "0":
+                ok = val[0] == "call" and val[1].endswith("powf") and len(val[2]) == 2 and to_poly(val[2][0], at) == one + PG * PS0 \
+                    and val[2][1][0] == "bin" and val[2][1][1] == "Div" and to_poly(val[2][1][2], at) == one and to_poly(val[2][1][3], at) == PG
+            elif name == "gnorm" and br == "nz" and slot == "i":
+                ok = val[0] == "bin" and val[1] == "Div" and to_poly(val[2], at) == PSI and to_poly(val[3], at) == one + PG * PS0
+            elif name == "gnorm" and br == "z" and slot == "0":
+                ok = val[0] == "call" and val[1].endswith("f64::exp") and to_poly(val[2][0], at) == PS0
+            elif name == "ignorm" and br == "nz" and slot == "0":
+                ok = val[0] == "bin" and val[1] == "Div" and to_poly(val[3], at) == PG and val[2][0] == "bin" and val[2][1] == "Sub" \
+                    and val[2][3][0] == "c" and float(val[2][3][1]) == 1.0 and val[2][2][0] == "call" and val[2][2][1].endswith("powf") \
+                    and to_poly(val[2][2][2][0], at) == PS0 and to_poly(val[2][2][2][1], at) == PG
+            elif name == "ignorm" and br == "nz" and slot == "i":
+                fs = [val[2], val[3]] if val[0] == "bin" and val[1] == "Mul" else []
+                pw = [f for f in fs if f[0] == "call" and f[1].endswith("powf") and to_poly(f[2][0], at) == PS0 and to_poly(f[2][1], at) == PG]
+                si = [f for f in fs if to_poly(f, at) == PSI]
+                ok = len(pw) == 1 and len(si) == 1
+            elif name == "ignorm" and br == "z" and slot == "0":
+                ok = val[0] == "call" and val[1].endswith("f64::ln") and to_poly(val[2][0], at) == PS0
+            key = (br, slot)
+            got[key] = got.get(key, True) and ok
+            if not ok:
+                ctx.fail(RULE, b.path, "%s %s[%s]" % (name, "gamma != 0" if br == "nz" else "gamma == 0", slot), "%s stores %s <- %s, which is not the gain normalisation's form" % (name, show(tgt)[-40:], show(val)[:120]), cm.loc_of(st["span"]))
+        copies = []
+        for bb, t in b.calls():
+            c_ = t["callee"]
+            if c_["k"] == "fndef" and cm.callee_name(c_).endswith("copy_from_slice") and len(t["args"]) == 2:
+                copies.append([show(eb.at(bb).op(a)) for a in t["args"]])
+        okc = copies == [["self[std::ops::RangeFrom::RangeFrom{start: 1}]", "self[std::ops::RangeFrom::RangeFrom{start: 1}]"]]
+        need = {("nz", "0"), ("z", "0")}
+        if ("nz", "i") not in got and ("nz", "i?") not in got:
+            # the per-element update is not an index loop over `target[i]` (an iterator form): the
+            # element clause is not evaluated rather than guessed at
+            ctx.note("%s: the per-element update is not written as an index loop; only the gain slot and the gamma = 0 copy were judged" % name)
+        else:
+            need = need | {("nz", "i")}
+        if need <= set(k for k, v in got.items() if v) and okc:
+            ctx.ok(RULE, "%s: %s" % (name, "c0' = (1 + g c0)^(1/g), ci' = ci / (1 + g c0); g = 0: exp(c0), rest copied" if name == "gnorm" else "c0' = (c0^g - 1)/g, ci' = ci * c0^g; g = 0: ln(c0), rest copied"), b.loc())
+        elif all(got.get(k, True) for k in got):
+            ctx.fail(RULE, b.path, name + " form", "%s is not the gain normalisation (recognised stores %s, copy of the other coefficients for gamma = 0: %s)" % (name, sorted(k for k, v in got.items() if v), copies), b.loc())
+
+
 def run(ctx):
     ctx.rule("C13-R1", "lsp2lpc separates gain and frequencies: order m = len - 1; P factors from elements 1,3,5,.. and Q factors from elements 2,4,6,.. each as -2 cos(w); element 0 never enters a cosine; section counts (m/2, m/2) / ((m+1)/2, (m-1)/2)")
     ctx.rule("C13-R2", "lsp2lpc recursion: x0[i+1] = x0[i] + c[i]*x1[i] + x2[i] with x2 <- x1 <- x0 for both chains, chain inputs (even: xx + xf, xx - xf; odd: xx, xx - xff), output a[k-1] = -0.5*(P chain + Q chain) for k >= 1 over k in 0..=m, then a[i+1] <- -a[i] (i descending), a[0] <- 1")
@@ -1027,6 +1111,8 @@ def run(ctx):
                 ctx.ok("C13-R3", "lsp2lpc tags its polynomial with the voice's own alpha and gamma (mgc2mgc then applies no second warp)", loc_)
             else:
                 ctx.fail("C13-R3", lb_.path, "alpha / gamma tag", "lsp2lpc tags its polynomial with alpha = %s, gamma = %s instead of self.alpha / self.gamma: mgc2mgc(len - 1, self.alpha, self.gamma) then warps (or gamma-converts) coefficients that already are on the voice's axis" % (show(a_) if a_ is not None else None, show(g_) if g_ is not None else None), loc_)
+
+    gain_normalisation(ctx, p)
 
     # ---- R4
     sn = cm.body_or_fail(ctx, p, "C13-R4", "vocoder::stage::Stage::new")
